@@ -205,7 +205,16 @@ impl Responder {
             // If it's in mempool we assume it was just included
             ConfirmationStatus::InMempoolSince(carrier.block_height())
         } else {
-            carrier.send_transaction(&breach.penalty_tx)
+            match carrier.send_transaction(&breach.penalty_tx) {
+                // bitcoind has the penalty in a block already, but it is not in our index: that block is ahead of the one being
+                // processed (several blocks are being connected in a row, e.g. after being offline, or the tower is a block behind).
+                // Keep track of it: the confirmation will be recorded once we get to that block. Otherwise the response would be
+                // left unattended (no tracker, so nothing would be re-sent if that block was reorged out).
+                ConfirmationStatus::IrrevocablyResolved => {
+                    ConfirmationStatus::InMempoolSince(carrier.block_height())
+                }
+                status => status,
+            }
         };
 
         if status.accepted() {
